@@ -154,7 +154,7 @@ def gen_case(draw):
 
 def shards(tier):
     n = 16 if tier == 'quick' else 64
-    return [{'examples': 400 if tier == 'quick' else 3000} for _ in range(n)]
+    return [{'examples': 800 if tier == 'quick' else 6000} for _ in range(n)]
 
 
 def run_shard(spec, ctx):
